@@ -24,12 +24,24 @@ def routing_families(prop, tier, seed, mc):
     if tier != 'thorough':
         disp, rest = disp[:1500], rest[:3500]
     stims = [{'class': 'tlc_table', 'reg': r['reg'], 'path': r['path'], 'via': 'builder' if i % 2 else 'routes'} for i, r in enumerate(disp + rest)]
-    return [('routing_table', stims)]
+    # the same table through tonic::transport::Server's router: add_service / add_optional_service(Some) for the registered
+    # names, add_optional_service(None) for others at random positions, served over a pipe to a bare h2 client
+    names = ['a.S', 'a.S2', 'S', 'a.b.S', 'a.s']
+    plans = []
+    for r in rnd.sample(disp, min(len(disp), 250 if tier != 'thorough' else 1500)) + rnd.sample(rest, min(len(rest), 350 if tier != 'thorough' else 2500)):
+        if not r['reg']:
+            continue
+        plan = [{'name': n, 'how': rnd.choice(['add', 'some'])} for n in r['reg']]
+        for n in names:
+            if n not in r['reg'] and rnd.random() < 0.5:
+                plan.insert(rnd.randint(0, len(plan)), {'name': n, 'how': 'none'})
+        plans.append({'class': 'server_plan', 'reg': r['reg'], 'plan': plan, 'path': r['path'], 'via': 'server'})
+    return [('routing_table', stims), ('server_plans', plans)]
 
 
 CONF['C10'] = dict(lab='routing', trace='Trace_Routing', gens=[], extra=routing_families,
                    assumptions=['five generated services (a.S, a.S2, S, a.b.S, a.s) x three methods stand for all name shapes: shared prefixes, no package, nested package, case variants',
-                                'every subset is registered in up to three orders (ascending, descending, rotated), through Routes::add_service and RoutesBuilder',
+                                'every subset is registered in up to three orders (ascending, descending, rotated), through Routes::add_service and RoutesBuilder, and (sampled) through Server::add_service / add_optional_service(Some | None) served to a bare h2 client',
                                 'paths that http::Uri refuses to parse never reach tonic and are counted, not judged'],
                    checker='tlc MC_Routing.cfg (22 644-point table); vh routing; tlc Trace_Routing.cfg')
 
